@@ -517,7 +517,16 @@ func (s *Sys) Fire() string {
 		}
 		time.Sleep(200 * time.Microsecond)
 	}
-	// the timer goroutine may still be inside Dispatch: wait until every managed goroutine is parked
+	// the timer goroutine (not managed by the scheduler) may still be inside DeliverySystemMessage /
+	// dispatch: the message is counted before the runner is handed to the dispatcher. Wait until the
+	// victim's runner exists (or the victim is gone) — on a loaded machine that can take a while —, then
+	// until every managed goroutine is parked
+	for rec != nil && s.runnerOf(rec) < 0 && vivid.VerifIsRegistered(s.sys, t.victim) {
+		if time.Now().After(deadline) {
+			return "hang"
+		}
+		time.Sleep(200 * time.Microsecond)
+	}
 	time.Sleep(300 * time.Microsecond)
 	s.sc.WaitQuiet()
 	if rec == nil {
